@@ -1,6 +1,6 @@
 """C01 — run() computes exactly the least model of the rules over the input facts."""
 import os
-from . import core, eng, gen, tiec, engcheck
+from . import core, eng, gen, tiec, engcheck, tiea
 
 MODULES = ["AscentVerif.Props.C01"]
 THEOREMS = ["versionsBase_eq", "versionsBase_covers", "versionsBase_skips_old", "run_sound", "run_complete", "run_eq_leastModel",
@@ -65,6 +65,28 @@ def check(tier, replay=None):
         its = [int(x) for x in io[-1].split()[1:]] if io[-1].startswith("iters") else []
         k = str(max(its) if its else 0); shapes["iters_max"][k] = shapes["iters_max"].get(k, 0) + 1
         k = str(len(its)); shapes["sccs"][k] = shapes["sccs"].get(k, 0) + 1
+    # tie A: the compilation plan (index columns, simple-join detection, reorderability, version vectors, SCC partition, looping flags)
+    # of the real macro pipeline vs the model of it (Model/Hir.lean + Engine.variants), for many more programs than rustc can compile
+    na = 800 if tier == "quick" else 8000
+    alist = engcheck.make_programs(rng.fork("tieA"), na)
+    res, log = tiea.run_macro_driver([(f"a{i}", "ascent", tiea.inner_text(eng.rs_program(p))) for i, p in enumerate(alist)])
+    if res is None:
+        r.violation({"kind": "obligation-broken", "no_longer_checks": ["tie A: the in-process macro driver (ascent_macro --features verif-hooks) does not build/run"], "log": log[-2000:]}, no_input=True)
+    elif proof.ok or os.path.exists(core.lean_driver()):
+        mout = core.run_model([f"eng prog a{i} {eng.sx_prog(p)}" for i, p in enumerate(alist)] + [f"eng mir a{i}" for i in range(len(alist))])
+        plan_bad, rejected = [], []
+        for i, p in enumerate(alist):
+            rr = res.get(f"a{i}", {})
+            if rr.get("outcome") != "ok": rejected.append({"program": eng.rs_program(p), "outcome": rr.get("outcome")}); continue
+            m, real = mout[len(alist) + i][4:], tiea.canon_mir(rr.get("mir") or "")
+            if m != real: plan_bad.append({"program": eng.rs_program(p), "model_plan": m, "real_plan": real})
+        r.cov["tieA_programs"] = len(alist); r.cov["tieA_plan_mismatches"] = len(plan_bad); r.cov["tieA_rejected"] = len(rejected)
+        for x in rejected[:2]:
+            r.violation({"kind": "failing-input", "what": "a well-formed generated program is rejected (or panics) in the macro pipeline", **x})
+        if plan_bad and not d.failing:
+            # a different plan is not by itself a wrong result: compile the offending programs and look for a failing input
+            r.violation({"kind": "obligation-broken", "no_longer_checks": [f"tie A: compilation plan of the real pipeline differs from Model/Hir.lean on {len(plan_bad)} programs"],
+                         "first_disagreements": plan_bad[:3], "searched": "tie B cases of this run against the naive oracle: none failed"}, no_input=True)
     r.sample({"program": eng.rs_program(plist[0]), "history": cases[0].ops, "impl": outs[0][0]})
     r.cov["programs"] = len(progs)
     r.cov["distribution"] = shapes
